@@ -465,6 +465,8 @@ class Engine:
         return d
 
     def num(self, v):
+        if isinstance(v, PyConst) and isinstance(v.val, float) and v.val in (float("inf"), -float("inf")):
+            return self.infinity(v.val < 0).term
         if isinstance(v, V) and isinstance(v.t, (Ty._Int, Ty._Real)):
             return v.term
         if isinstance(v, V) and isinstance(v.t, Ty._Bool):
@@ -598,8 +600,15 @@ class Engine:
         raise Unsupported("unary op")
 
     def arith(self, st, op, a, b, node):
-        if isinstance(a, (Ref, PyConst)) or isinstance(b, (Ref, PyConst)):
+        def _isinf(x):
+            return isinstance(x, PyConst) and isinstance(x.val, float)
+
+        if (isinstance(a, (Ref, PyConst)) and not _isinf(a)) or (isinstance(b, (Ref, PyConst)) and not _isinf(b)):
             return self.container_binop(st, op, a, b, node)
+        if _isinf(a):
+            a = self.infinity(a.val < 0)
+        if _isinf(b):
+            b = self.infinity(b.val < 0)
         if not isinstance(a.t, (Ty._Int, Ty._Real, Ty._Bool)) or not isinstance(b.t, (Ty._Int, Ty._Real, Ty._Bool)):
             return self.container_binop(st, op, a, b, node)
         real = isinstance(a.t, Ty._Real) or isinstance(b.t, Ty._Real)
@@ -695,8 +704,19 @@ class Engine:
         raise Unsupported(f"binary op on {av} and {bv}")
 
     def e_BoolOp(self, st, node):
-        vals = [self.eval(st, v) for v in node.values]
-        ts = [self.truth(st, v) for v in vals]
+        # short-circuit: operand k is evaluated under the guard that the
+        # previous operands did not decide the result (so safety obligations
+        # inside it are conditional, as in Python)
+        ts = []
+        npc = len(st.pc)
+        try:
+            for vnode in node.values:
+                v = self.eval(st, vnode)
+                t = self.truth(st, v)
+                ts.append(t)
+                st.pc.append(t if isinstance(node.op, ast.And) else z3.Not(t))
+        finally:
+            del st.pc[npc:]
         # NB: operands are evaluated eagerly; fine for the pure, total
         # expressions of the subset (safety obligations inside an operand are
         # guarded below by evaluating them under the short-circuit condition)
@@ -736,6 +756,10 @@ class Engine:
             return z3.Not(r) if isinstance(op, ast.NotEq) else r
         if isinstance(a, V) and isinstance(b, V) and isinstance(a.t, Ty.Tuple) and isinstance(b.t, Ty.Tuple):
             return self.lex(op, Ty.split(a.t, a.c), Ty.split(b.t, b.c))
+        if isinstance(a, V) and isinstance(a.t, Ty.Opt):
+            a = self.narrow(st, a, a.t.t, node)
+        if isinstance(b, V) and isinstance(b.t, Ty.Opt):
+            b = self.narrow(st, b, b.t.t, node)
         x, y = self.num(a), self.num(b)
         if x.sort() != y.sort():
             x = z3.ToReal(x) if x.sort() == Ty.IntS else x
